@@ -208,7 +208,9 @@ def policy_clauses(prog, arg):
             return [(b, ("ret", models.some(U.ret))), (z3.Not(b), ("ret", models.none()))]
         I.stubs["test_fajr_isha"] = stub_tfi
         st.add([U.rinfo["Fajr"][0], U.rinfo["Isha"][0]])
-        I.max_unroll = 3
+        # probes unrolled: 7 for the frame clauses (a loop over the six prayers must fit), 3 otherwise (path count); a path that hits the
+        # bound anywhere but in the still-running search leaves the obligation undecided (see the unwind rule below)
+        I.max_unroll = 7 if "frame" in groups else 3
     params = params_for(U, policy)
 
     def mf(m):
@@ -230,9 +232,14 @@ def policy_clauses(prog, arg):
             res["inconclusive"].append("unsupported: %s" % o.info)
             continue
         if o.kind == "unwind":
-            if not policy.startswith("NearestGoodDay"):
+            # only the good-day search itself may run past the unrolled prefix (covered by the dedicated C09 obligation): that is the
+            # case exactly when the last probed date was rejected; any other loop hitting the bound leaves the obligation undecided
+            ntfi = len([x for x in o.st.log if x[0] == "tfi"])
+            searching = policy.startswith("NearestGoodDay") and ntfi > 0 and \
+                any(z3.is_not(c) and c.arg(0).eq(z3.Bool("gd_valid_%d" % (ntfi - 1))) for c in o.st.pc)
+            if not searching:
                 res["inconclusive"].append("unwind: %s" % o.info)
-            continue   # good-day search beyond the unrolled prefix: covered by the dedicated C09 obligation
+            continue
         if o.kind == "panic":
             if "panic" in groups:
                 r, m = S.check(o.st.pc, timeout_ms=30000, want_model=True)
@@ -250,6 +257,7 @@ def policy_clauses(prog, arg):
                     res["inconclusive"].append("obligation undecided: " + desc)
         out = read_out(I, o.value)
         neg = []
+        neg_known = []
         if any(out[p] is None for p in SIX) or len(o.value.items) != 6:
             res["cands"].append({"what": "result map does not have exactly the six keys", "inputs": {"policy": policy}, "clause": "panic"})
             continue
@@ -276,6 +284,18 @@ def policy_clauses(prog, arg):
                 for p in ("Fajr", "Isha"):
                     neg.append(("only-if-invalid policy changed a conventionally valid %s" % p,
                                 z3.And(h[p][0], conv[p][0], z3.Not(same_as_conv(p)))))
+                    # a time the method defines by an interval is conventionally valid whenever its base (Shurooq/Maghrib) is, even if
+                    # the discarded angle-based value does not exist: the value must be kept ...
+                    if val[p] is not None:
+                        keeps = z3.And(okz[p], to_z3(val[p]) == conv[p][1])
+                        neg.append(("only-if-invalid policy changed the conventionally valid interval-defined %s" % p,
+                                    z3.And(z3.Not(h[p][0]), conv[p][0], z3.Not(keeps))))
+                        # ... and not flagged (recorded known finding C08 interval-flag: adj_for_int keeps the flag the policy set)
+                        neg_known.append(("interval-flag", "only-if-invalid policy flags the conventionally valid interval-defined %s" % p,
+                                          z3.And(z3.Not(h[p][0]), conv[p][0], keeps, to_z3(ext[p]))))
+                    else:
+                        neg.append(("only-if-invalid policy lost the conventionally valid interval-defined %s" % p,
+                                    z3.And(z3.Not(h[p][0]), conv[p][0])))
             if not policy.startswith("HalfOfNight"):
                 for p in SIX:
                     if val[p] is not None:
@@ -360,6 +380,16 @@ def policy_clauses(prog, arg):
                         else:
                             good = z3.And(okz[p] == r_[p][0], z3.Implies(okz[p], z3.And(close(val[p], r_[p][1]), to_z3(ext[p]))))
                         neg.append(("%s is not the substitute-latitude time (flagged)" % p, z3.And(repl, z3.Not(good))))
+        for role, d, c in neg_known:       # separate query, so that the recorded finding cannot mask a different failure
+            r, m = S.check(o.st.pc + [c], timeout_ms=60000, want_model=True)
+            nq += 1
+            if r == "sat":
+                if not any(x.get("known_role") == role for x in res["cands"]):
+                    res["cands"].append({"what": d, "inputs": mf(m), "clause": "spec", "known_role": role,
+                                         "got": {q: [mval(m, okz[q]), mval(m, val[q]) if val[q] is not None else None,
+                                                     mval(m, ext[q]) if ext[q] is not None else None] for q in SIX}})
+            elif r == "unknown":
+                res["inconclusive"].append("spec query undecided")
         if not neg:
             continue
         goal = z3.Or([c for _, c in neg])
